@@ -138,6 +138,7 @@ class Kernel:
         self.name = name
         self.sad = {}
         self.spd = []
+        self.gone = set()      # SAD keys the kernel removed by itself (hard expiry deletes the state before it notifies)
         self.log = []          # every request: dict(type, dec, raw, errno)
         self.framing = []      # framing problems seen (strings)
         self.fail = {}         # request ordinal (since arm) -> errno
